@@ -534,7 +534,7 @@ func checkC18(r *Report) {
 	e := runEffect(p)
 	pathTrusted(r)
 	effectTrusted(r)
-	r.Explain = "Structural clauses of 'the API-backed client maps bundles consistently, race-free'. C18.a LOCKSET: every access to a field F that has a sibling mutex FMu (APIClient.bundledVersions) is made with that mutex held on all paths (forward must-analysis of Lock/Unlock/defer Unlock per basic block). C18.b DERIVED-FIRST: the map update that stores a bundle into bundledVersions is dominated by a SetAttr(version.DerivedFrom, ...) call in the same function, so a stored bundle always records what it derives from. C18.c BUNDLE-GUARD: in each of the four resolve.Client methods of APIClient every RPC on the Insights service is on the false side of the isNPMBundle(name) test and the true side reads through getBundledVersion, so all four calls treat bundle names consistently. C18.d CLIENT-STATE: no field of APIClient is stored to after construction and the only field-held memory updated in place is bundledVersions. C18.e ALIAS-ISOLATED: no function of the API client that receives a dependency type by value writes its shared attribute map, so the alias (KnownAs) added to one requirement cannot leak into the other requirements built from the same per-section template. C18.g BUNDLE-FROZEN: a slice read out of a bundledVersion outside npmRequirements (which builds the entries before they are stored) is never sorted, appended to, stored into or passed to a callee whose effect summary writes it, because entries of the shared table are handed out to every caller after the lock is released. C18.f SORT-SELF: the callback that orders bundles parent-first indexes the very slice being sorted. C18.l BUNDLE-KEY-CONSTRUCTOR: every key used to store into or look up the table of bundles in npmRequirements is the result of mangledName or the root's name. Not decided: equality of graphs through the two clients; the race detector's verdict on schedules (C18.a is the static necessary condition for it)."
+	r.Explain = "Structural clauses of 'the API-backed client maps bundles consistently, race-free'. C18.a LOCKSET: every access to a field F that has a sibling mutex FMu (APIClient.bundledVersions) is made with that mutex held on all paths (forward must-analysis of Lock/Unlock/defer Unlock per basic block). C18.b DERIVED-FIRST: the map update that stores a bundle into bundledVersions is dominated by a SetAttr(version.DerivedFrom, ...) call in the same function, so a stored bundle always records what it derives from. C18.c BUNDLE-GUARD: in each of the four resolve.Client methods of APIClient every RPC on the Insights service is on the false side of the isNPMBundle(name) test and the true side reads through getBundledVersion, so all four calls treat bundle names consistently. C18.d CLIENT-STATE: no field of APIClient is stored to after construction and the only field-held memory updated in place is bundledVersions. C18.e ALIAS-ISOLATED: no function of the API client that receives a dependency type by value writes its shared attribute map, so the alias (KnownAs) added to one requirement cannot leak into the other requirements built from the same per-section template. C18.g BUNDLE-FROZEN: a slice read out of a bundledVersion outside npmRequirements (which builds the entries before they are stored) is never sorted, appended to, stored into or passed to a callee whose effect summary writes it, because entries of the shared table are handed out to every caller after the lock is released. C18.f SORT-SELF: the callback that orders bundles parent-first indexes the very slice being sorted. C18.l BUNDLE-KEY-CONSTRUCTOR: every key used to store into or look up the table of bundles in npmRequirements is the result of mangledName or the root's name. C18.m SCOPE-AT: an index of the at sign used to split a name@version text is compared in a way that tells position 0 (the scope of an npm name) from a separator. Not decided: equality of graphs through the two clients; the race detector's verdict on schedules (C18.a is the static necessary condition for it)."
 	n := locksetRule(r, p, "C18.a/LOCKSET")
 	r.floor("C18.a/LOCKSET", "accesses to guarded fields", n, 2)
 	if tp := loadTestdata(); tp != nil {
@@ -694,6 +694,8 @@ func checkC18(r *Report) {
 		bundleKeyResolvedRule(r, p, "C18.k/BUNDLE-KEY-RESOLVED")
 		nBK := bundleKeyConstructorRule(r, p, "C18.l/BUNDLE-KEY-CONSTRUCTOR")
 		r.floor("C18.l/BUNDLE-KEY-CONSTRUCTOR", "stores and lookups in the table of bundles of npmRequirements", nBK, 4)
+		nSA := scopeAtRule(r, p, "C18.m/SCOPE-AT")
+		r.floor("C18.m/SCOPE-AT", "indexes of \"@\" taken in package resolve and the schema reader", nSA, 3)
 		nNT := sentinelComparedRule(r, p, "C18.i/NOTFOUND-TESTED", "ErrNotFound")
 		r.floor("C18.i/NOTFOUND-TESTED", "tests for ErrNotFound in the resolvers and clients", nNT, 1)
 	}
